@@ -1205,6 +1205,70 @@ fn addr_resolution_checks_inner() -> Vec<String> {
     bad
 }
 
+/// C14: the counters are 64-bit quantities - more than 4 GiB of refused (and, in the thorough tier,
+/// accepted) datagrams on one sink must still add up exactly
+pub fn counter_volume_checks(thorough: bool) -> Vec<String> {
+    match catch(|| counter_volume_checks_inner(thorough)) {
+        Ok(v) => v,
+        Err(p) => vec![format!("the counter volume check panicked: {}", p)],
+    }
+}
+
+fn counter_volume_checks_inner(thorough: bool) -> Vec<String> {
+    let mut bad = Vec::new();
+    let rx = match UdpSocket::bind("127.0.0.1:0") {
+        Ok(r) => r,
+        Err(_) => return bad,
+    };
+    let addr = rx.local_addr().unwrap();
+    // refused: 4300 x 1 MiB (EMSGSIZE, nothing is copied)
+    let sock = UdpSocket::bind("127.0.0.1:0").unwrap();
+    let sink = UdpMetricSink::from(addr, sock).unwrap();
+    let big = "x".repeat(1 << 20);
+    let n = 4300u64;
+    let mut errs = 0u64;
+    for _ in 0..n {
+        if sink.emit(&big).is_err() {
+            errs += 1;
+        }
+    }
+    let s = sink.stats();
+    if errs == n && (s.packets_dropped, s.bytes_dropped, s.packets_sent, s.bytes_sent) != (n, n << 20, 0, 0) {
+        bad.push(format!(
+            "{} emits of 1 MiB each were refused (EMSGSIZE) on one UDP sink but stats() = dropped {} pkts / {} B, sent {} / {} B (expected {} / {} B dropped)",
+            n, s.packets_dropped, s.bytes_dropped, s.packets_sent, s.bytes_sent, n, n << 20
+        ));
+    }
+    if thorough {
+        // accepted: 72_000 x 60_000 B = 4.32 GB handed to the loopback (the receiver is not read: the
+        // kernel drops what does not fit, the sends succeed)
+        let sock = UdpSocket::bind("127.0.0.1:0").unwrap();
+        let sink = UdpMetricSink::from(addr, sock).unwrap();
+        let m = "y".repeat(60_000);
+        let (mut ok, mut okb, mut er, mut erb) = (0u64, 0u64, 0u64, 0u64);
+        for _ in 0..72_000u64 {
+            match sink.emit(&m) {
+                Ok(k) => {
+                    ok += 1;
+                    okb += k as u64;
+                }
+                Err(_) => {
+                    er += 1;
+                    erb += m.len() as u64;
+                }
+            }
+        }
+        let s = sink.stats();
+        if (s.packets_sent, s.bytes_sent, s.packets_dropped, s.bytes_dropped) != (ok, okb, er, erb) {
+            bad.push(format!(
+                "{} emits of 60000 B returned Ok ({} B) and {} Err ({} B) on one UDP sink but stats() = sent {} / {} B dropped {} / {} B",
+                ok, okb, er, erb, s.packets_sent, s.bytes_sent, s.packets_dropped, s.bytes_dropped
+            ));
+        }
+    }
+    bad
+}
+
 /// C14 concurrent: threads on one unbuffered sink, totals exact after join
 #[derive(Serialize, Deserialize, Clone, Debug)]
 pub struct ConcSockCase {
